@@ -241,3 +241,38 @@ func hashBytes(bs ...[]byte) uint64 {
 	}
 	return h.Sum64()
 }
+
+// withDefaults turns a sparse option literal into a realistic option set: every field that has a documented
+// "use the default" sentinel and was left at its zero value gets that sentinel, so the encode runs with the library
+// defaults (SNS 50, filter strength 60, strong filter, 4 segments, alpha quality 100, ...) instead of with those
+// features switched off. Checks that want the zero-valued literal itself pass it directly.
+func withDefaults(o webp.EncoderOptions) webp.EncoderOptions {
+	if o.SNSStrength == 0 {
+		o.SNSStrength = -1
+	}
+	if o.FilterStrength == 0 {
+		o.FilterStrength = -1
+	}
+	if o.FilterType == 0 {
+		o.FilterType = -1
+	}
+	if o.Segments == 0 {
+		o.Segments = -1
+	}
+	if o.Pass == 0 {
+		o.Pass = -1
+	}
+	if o.QMax == 0 {
+		o.QMax = -1
+	}
+	if o.AlphaCompression == 0 {
+		o.AlphaCompression = -1
+	}
+	if o.AlphaFiltering == 0 {
+		o.AlphaFiltering = -1
+	}
+	if o.AlphaQuality == 0 {
+		o.AlphaQuality = -1
+	}
+	return o
+}
